@@ -27,8 +27,8 @@ from . import c14_model as jm
 
 MODULE = "chan/Jakes.tla"
 DEVS = ["ArangeCountDrifts", "ArangeStepRounded", "NumpyIntShapeRejected", "ReusesBuffer", "PlusTsDropped", "SkipOffByOne", "ShapeRestartsTime", "GenRedrawsPhases",
-        "SimilarSharesPhases", "NormOneOverL", "DropsTailRays"]
-INVS = ["TypeOK", "Count", "Aligned", "OnGrid", "BuffersDistinct", "EveryRayCounts", "ShapeAccepted", "PhasesFixed", "Independent", "Bound", "BoundTight", "ZeroDoppler", "Moves",
+        "SimilarSharesPhases", "NormOneOverL", "DropsTailRays", "DopplerFoldedBeforeCos"]
+INVS = ["TypeOK", "Count", "Aligned", "OnGrid", "BuffersDistinct", "EveryRayCounts", "DopplerNotFolded", "ShapeAccepted", "PhasesFixed", "Independent", "Bound", "BoundTight", "ZeroDoppler", "Moves",
         "UnitPower"]
 PROPS = ["Contiguity", "Isolation", "EarlierBlocksUnchanged"]
 # laws the specification may name in the `req` set of an emitted edge, and where the replay enforces them
@@ -42,6 +42,7 @@ LAWS = {
     "PhasesFixed": "values with the phases of the emitted draw", "Bound": "|h| <= sqrt(L)",
     "AnyIntTypeSameShape": "py_shape: the shape is handed over in the form the specification rotates (int, tuple, numpy "
                            "integer scalar, tuple of numpy integers); the block shapes are compared as always",
+    "DopplerNotFolded": "values at Fd*Ts below, at and above whole turns per sample (0.9, 1, 1.5, 1.7, 2, 2.5, negative)",
     "EveryRayCounts": "values against the sum over ALL L rays, L from 1 to 64 incl. non-multiples of 16 (L_CHOICES)",
     "ZeroDoppler": "values of the Fd = 0 instance (tolerance floor 1e-9)",
 }
@@ -55,12 +56,13 @@ def tlc_par():
 
 
 def model(kind="jakes", gens=(1, 3, 1000), skips=(2,), big=(1,), shapes=((2,),), shape0=((),), warm=(0,), maxlen=4,
-          maxgens=1, gendef=False, lattice=False, L=4, fdq=1, dev=(), emit=True, invs=None, props=None, salt=0):
+          maxgens=1, gendef=False, lattice=False, L=4, fdq=1, dev=(), emit=True, invs=None, props=None, salt=0,
+          halfcos=False):
     sset = lambda ss: "{" + ", ".join(tlc.tla(tuple(s)) for s in ss) + "}"
     defs = {"ShapeSet": sset(shapes), "Shape0": sset(shape0), "Dev": tlc.tla({k: (k in dev) for k in DEVS})}
     cons = {"Kind": tlc.tla(kind), "FormSalt": str(int(salt) % 4), "GenSizes": tlc.tla(set(gens)), "SkipSizes": tlc.tla(set(skips)),
             "BigReps": tlc.tla(set(big)), "Warm": tlc.tla(set(warm)), "MaxLen": str(maxlen), "MaxGens": str(maxgens),
-            "GenDefault": tlc.tla(bool(gendef)), "Lattice": tlc.tla(bool(lattice)), "L": str(L)}
+            "GenDefault": tlc.tla(bool(gendef)), "Lattice": tlc.tla(bool(lattice)), "HalfCos": tlc.tla(bool(halfcos)), "L": str(L)}
     defs["FdQ"] = f"({int(fdq)})"       # a cfg file cannot hold a negative number
     for k in ("GenSizes", "SkipSizes", "BigReps"):
         if cons[k] == "{}":
@@ -120,7 +122,7 @@ class TableRS:
         self.queue = []
 
     def feed(self, tab):
-        self.queue.append(np.array(tab["phi"], dtype=float) / 4.0)
+        self.queue.append(np.array(tab["phi"], dtype=float) / 12.0)
         self.queue.append(np.array(tab["psi"], dtype=float) / 4.0)
 
     def rand(self, *dims):
@@ -532,7 +534,10 @@ def run_edges(mode, Fd, Ts, L, seed, edges):
             kind = ("finding:ArangeCountDrifts" if is_arange_finding(ex, e) else
                     "finding:NumpyIntShapeRejected" if is_npint_shape_finding(ex, e) else "violation")
             return okc, (kind, i, f"{_opname(e)} raised {type(ex).__name__}: {str(ex)[:160]}")
-        bad = drv.check_all()
+        try:
+            bad = drv.check_all()
+        except Exception as ex:  # noqa  - comparisons are total: the code under test failing while it is observed is a verdict
+            return okc, ("violation", i, f"after {_opname(e)}: observing the generators raised {type(ex).__name__}: {str(ex)[:160]}")
         if bad:
             text, ratio = bad[0]
             kind = "finding:ArangeStepRounded" if is_step_rounded_finding(hist, ratio) else "violation"
@@ -554,6 +559,13 @@ def _opname(e):
 
 # ----------------------------------------------------------------------------- Rayleigh generator
 def run_rayleigh(seed, edges):
+    try:
+        return _run_rayleigh(seed, edges)
+    except Exception as ex:  # noqa  - comparisons are total
+        return 0, ("violation", 0, f"Rayleigh: driving / observing the generator raised {type(ex).__name__}: {str(ex)[:160]}")
+
+
+def _run_rayleigh(seed, edges):
     from pyphysim.channels.fading_generators import RayleighSampleGenerator
     np.random.seed(seed % (2 ** 31))
     gens, last, seen = [], [], []
@@ -710,7 +722,8 @@ def model_devs(ctx):
             "ReusesBuffer": ("EarlierBlocksUnchanged", {}), "PlusTsDropped": ("Contiguity", {}), "SkipOffByOne": ("Contiguity", {}),
             "ShapeRestartsTime": ("Contiguity", {}), "GenRedrawsPhases": ("PhasesFixed", {}),
             "SimilarSharesPhases": ("Independent", dict(maxgens=2)), "NormOneOverL": ("UnitPower", dict(lattice=True)),
-            "DropsTailRays": ("EveryRayCounts", dict(lattice=True, L=20))}
+            "DropsTailRays": ("EveryRayCounts", dict(lattice=True, L=20)),
+            "DopplerFoldedBeforeCos": ("DopplerNotFolded", dict(lattice=True, halfcos=True, fdq=4, L=6))}
 
     def one(dev):
         prop, kw = want[dev]
@@ -739,11 +752,14 @@ def configs(tier):
     # both signs and more than half a turn per sample: the model is defined for any Fd (a negative Doppler is the
     # conjugate rotation; at Fd*Ts = 0.9 the phase reaches 5.7e10 rad at 10^10 samples)
     wide = [(-0.05, 1e-3), (0.9, 1e-6), (-0.37, 1e-9), (1.7, 1.0)]
+    # one or more WHOLE turns per sample (and halves in between): at the sample points such a Doppler cannot be told from
+    # its fractional part for a ray with cos(phi) = +-1, but for every other ray it can - the process is not periodic in Fd*Ts
+    over = [(1.0, 1e-3), (1.5, 1e-6), (2.0, 1e-9), (2.5, 1.0), (-1.0, 1e-6), (3.0, 1e-3)]
     c = {}
     if not thorough:
         rel = [("rel", 0.05, Ts) for Ts in Ts2]
-        srel = [("rel", f, Ts) for f, Ts in slow[:4] + wide[:2]]
-        sfun = [("relfunc", f, Ts) for f, Ts in slow[:4] + wide[:2]]
+        srel = [("rel", f, Ts) for f, Ts in slow[:4] + wide[:2] + over[:4]]
+        sfun = [("relfunc", f, Ts) for f, Ts in slow[:4] + wide[:2] + over[:4]]
         # the alphabet of DESIGN.md: {Gen 1, Gen 3, Gen 1000, Skip 2, SkipBig, SetShape}, all sequences <= 4,
         # from a fresh generator and from one that has already produced 999 * 10^7 samples (10^10 after one SkipBig)
         c["chunk"] = (dict(warm=(0, 999)), 5, rel, None, srel)
@@ -759,18 +775,20 @@ def configs(tier):
         # generate_jakes_samples WITHOUT phase arguments and with all defaults (own draw per call)
         c["func-fresh"] = (dict(kind="funcfresh", gens=(1, 3), skips=(2,), big=(1,), shapes=((2,), (), (2, 3)),
                                 shape0=((), (3,)), warm=(0, 999), gendef=True, maxlen=3), 4,
-                           [("relfreshfunc", 0.05, 1e-3), ("relfreshfunc", -0.05, 1e-3)], 1)
+                           [("relfreshfunc", f, 1e-3) for f in (0.05, -0.05, 1.5, 2.0)], 1)
         c["zero-doppler"] = ("func", 4, [("rel", 0.0, 1e-3)], None)        # same request sequences as `func`
         lat = dict(gens=(1, 3, 6), skips=(1, 2), big=(1,), shapes=((2,),), maxlen=3, lattice=True)
         c["lattice-q1"] = (dict(lat, L=20, fdq=1, warm=(0, 999)), 4, [("lat", 0.25, 1e-3), ("latfunc", 0.25, 1e-9)], None)
-        c["lattice-q0"] = (dict(lat, L=5, fdq=0), 4, [("lat", 0.0, 1e-3), ("latfunc", 0.0, 1.0)], None)
-        c["lattice-qneg"] = (dict(lat, L=5, fdq=-1), 4, [("lat", -0.25, 1e-3), ("latfunc", -0.25, 1e-6)], 1)
+        c["lattice-q0"] = (dict(lat, L=5, fdq=0, halfcos=True), 4, [("lat", 0.0, 1e-3), ("latfunc", 0.0, 1.0)], None)
+        c["lattice-qneg"] = (dict(lat, L=5, fdq=-2, halfcos=True), 4, [("lat", -0.5, 1e-3), ("latfunc", -0.5, 1e-6)], 1)
+        # exactly one turn per sample, rays at 60 degrees move by half a turn per sample (exact values)
+        c["lattice-q4"] = (dict(lat, L=6, fdq=4, halfcos=True, warm=(0, 999)), 4, [("lat", 1.0, 1e-3), ("latfunc", 1.0, 1e-6)], 1)
         c["rayleigh"] = (dict(kind="rayleigh", gens=(1, 3), skips=(2,), big=(), shapes=((2, 3), ()), shape0=((), (2,)),
                               maxgens=2, gendef=True, maxlen=3), 4, [("rayleigh", 0.0, 1.0)], None)
     else:
         rel = [("rel", f, Ts) for Ts in Ts4 for f in (0.05, 0.011, 0.23)]
-        srel = [("rel", f, Ts) for f, Ts in slow + wide]
-        sfun = [("relfunc", f, Ts) for f, Ts in slow + wide]
+        srel = [("rel", f, Ts) for f, Ts in slow + wide + over]
+        sfun = [("relfunc", f, Ts) for f, Ts in slow + wide + over]
         c["chunk"] = (dict(warm=(0, 999), maxlen=6), 7, rel + srel, 1)
         c["chunk-big"] = (dict(gens=(1, 3, 1000, 100000), warm=(0, 999), maxlen=5), 6, rel + srel, 1)
         c["chunk-all"] = (dict(warm=(0, 999), maxlen=4), 5, rel + srel, None)
@@ -782,7 +800,10 @@ def configs(tier):
                              [("rel", 0.0, Ts) for Ts in Ts4], None)
         lat = dict(gens=(1, 3, 6, 1000), skips=(1, 2), big=(1,), shapes=((2,), ()), maxlen=4, lattice=True, warm=(0, 999))
         c["lattice-q1"] = (dict(lat, L=47, fdq=1), 5, [(m, 0.25, Ts) for Ts in Ts4 for m in ("lat", "latfunc")], 2)
-        c["lattice-q2"] = (dict(lat, L=20, fdq=2), 5, [(m, 0.5, Ts) for Ts in Ts4 for m in ("lat", "latfunc")], 2)
+        c["lattice-q2"] = (dict(lat, L=20, fdq=2, halfcos=True), 5, [(m, 0.5, Ts) for Ts in Ts4 for m in ("lat", "latfunc")], 2)
+        c["lattice-q4"] = (dict(lat, L=6, fdq=4, halfcos=True), 5, [(m, 1.0, Ts) for Ts in Ts4 for m in ("lat", "latfunc")], 1)
+        c["lattice-q6"] = (dict(lat, L=9, fdq=6, halfcos=True), 5, [(m, 1.5, Ts) for Ts in Ts4 for m in ("lat", "latfunc")], 1)
+        c["lattice-q10"] = (dict(lat, L=17, fdq=10, halfcos=True), 5, [(m, 2.5, Ts) for Ts in Ts4 for m in ("lat", "latfunc")], 1)
         c["lattice-q0"] = (dict(lat, L=33, fdq=0), 5, [(m, 0.0, Ts) for Ts in Ts4 for m in ("lat", "latfunc")], 2)
         c["lattice-qneg"] = (dict(lat, L=5, fdq=-1), 5, [(m, -0.25, Ts) for Ts in Ts4 for m in ("lat", "latfunc")], 1)
         c["lattice-q3"] = (dict(lat, L=12, fdq=3), 5, [(m, 0.75, Ts) for Ts in Ts4 for m in ("lat", "latfunc")], 1)
@@ -790,7 +811,7 @@ def configs(tier):
                             maxgens=2, gendef=True, maxlen=4), 5, [("relglobal", 0.1, 1e-3)], None)
         c["func-fresh"] = (dict(kind="funcfresh", gens=(1, 3, 1000), skips=(2,), big=(1,), shapes=((2,), (), (2, 3)),
                                 shape0=((), (3,)), warm=(0, 999), gendef=True, maxlen=4), 5,
-                           [("relfreshfunc", f, 1e-3) for f in (0.05, -0.05, 0.9, 1e-7)], 1)
+                           [("relfreshfunc", f, 1e-3) for f in (0.05, -0.05, 0.9, 1e-7, 1.0, 1.5, 2.5)], 1)
         c["siblings3"] = (dict(gens=(3,), skips=(2,), big=(), shapes=((2,),), maxgens=3, maxlen=4), 5,
                           [("rel", 0.05, Ts) for Ts in Ts4], 1)
         c["rayleigh"] = (dict(kind="rayleigh", gens=(1, 3), skips=(2,), big=(1,), shapes=((2, 3), ()),
